@@ -16,6 +16,7 @@ import (
 // and its arguments were pushed, the call depth is restored (the state runs a fixed follow-up chunk),
 // and a handler runs exactly once.
 func apiProtected(w *lib.Writer, tier string, seed uint64) {
+	loadReader(w)
 	type callee struct {
 		name string
 		mk   func(L *lua.LState) lua.LValue
@@ -151,4 +152,43 @@ func apiRun(opt lua.Options, prelude string, probe func(L *lua.LState, depth int
 		note(true, "follow-up chunk returned the wrong values", "after all probes")
 	}
 	return
+}
+
+// loadReader: load runs its reader under its own protection (lua_load's protected parser): an error
+// raised by the reader, of any type, at any call, is load's second result and the caller goes on.
+func loadReader(w *lib.Writer) {
+	src := `
+local r = {}
+local function note(...) r[#r + 1] = table.concat({...}, " ") end
+local f, e = load(function() error("reader boom", 0) end); note(tostring(f), tostring(e))
+local n, E = 0, {}
+f, e = load(function() n = n + 1; if n == 1 then return "return 1 +" end; error(E) end); note(tostring(f), tostring(e == E), n)
+f, e = load(function() local t = nil; return t.x end); note(tostring(f), type(e))
+local co = coroutine.wrap(function() local f2, e2 = load(function() error("in co", 0) end); return tostring(f2), e2, "reached" end); note(co())
+n = 0; f = load(function() n = n + 1; return ({"return ", "4", "2", nil})[n] end); note(f())
+RESULT = table.concat(r, " | ")`
+	want := "nil reader boom | nil true 2 | nil string | nil in co reached | 42"
+	what := ""
+	func() {
+		defer func() {
+			if r := recover(); r != nil {
+				what = fmt.Sprintf("Go panic escaped: %v", r)
+			}
+		}()
+		L := lua.NewState()
+		defer L.Close()
+		if err := L.DoString(src); err != nil {
+			what = "the reader's error left load: " + err.Error()
+			return
+		}
+		if got := L.GetGlobal("RESULT").String(); got != want {
+			what = fmt.Sprintf("got %q, expected %q", got, want)
+		}
+	}()
+	id := w.Add(lib.Case{Input: map[string]any{"api": "load-reader-error", "src": src}, Observed: map[string]any{"failed": what != "", "what": what},
+		Class: "api-load-reader", Nontrivial: true, Coq: "CProg [] (Outcome [] (OOk []))"})
+	w.Meta.GoOnlyChecked++
+	if what != "" {
+		w.GoFail(id, "errors of load's reader function: "+what)
+	}
 }
